@@ -159,6 +159,9 @@ def sync_property(
     assert rewrite_at_query.replaced is True, "Failed to update with {!r}".format(
         to_code(replacement_node)
     )
+    # The spliced-in node still carries the location it had in the input file;
+    # a later pair must address the nodes by where they are in the output now
+    annotate_ancestry(gen_ast)
     return gen_ast
 
 
